@@ -154,11 +154,9 @@ fn process_z80r_block<H: Host>(emulator: &mut Emulator<H>, block_data: &[u8]) {
     // chFlags
     let flags = block_data[34] as u32;
     emulator.cpu.skip_interrupt = flags & ZXSTZF_EILAST != 0;
+    // PC of the halted CPU points to the `HALT` opcode, exactly as CPU
+    // emulation expects it (PC is moved forward when interrupt is accepted)
     emulator.cpu.halted = flags & ZXSTZF_HALTED != 0;
-
-    if emulator.cpu.halted {
-        emulator.cpu.regs.inc_pc();
-    }
 
     // v1.5
     if flags & ZXSTZF_FSET != 0 {
